@@ -342,7 +342,8 @@ Proof.
              destruct (drive spn (go n) n Check i ctx its lim pa idx acc s) as [[[[] ?] ?] ?]; reflexivity end).
     apply rep_fast_mi; exact IH.
   - (* Collect *) drive_case IH; crush IH.
-  - (* CollectExactly *) drive_case IH; crush IH.
+  - (* CollectExactly *)
+    destruct n0 as [|k0]; [destruct (its_fail (mk_iter i ctx)) as [e0|]; [apply IH|]|]; drive_case IH; crush IH.
   - (* Foldl *)
     rewrite IH. destruct (go n Emit g ctx s) as [[] s1]; cbn [fst snd strip]; try reflexivity.
     drive_case IH; crush IH.
